@@ -223,6 +223,10 @@ func c13Eval(t *fw.T, c *fw.Case) {
 		break
 	}
 	vs = append(vs, variant{"empty-parameter", base + "GET /zz/{}/x\n  200 any\n"})
+	vs = append(vs, variant{"empty-parameter-first-segment", base + "GET /{}/zzx\n  200 any\n"})
+	vs = append(vs, variant{"empty-parameter-only-segment-url", base + "URL /{}\n  GET\n    200 any\n"})
+	vs = append(vs, variant{"empty-parameter-first-segment-with-path", base + "GET /{}/zzusers/{zid}\n  Path\n    {\n      \"zid\": 1\n    }\n  200 any\n"})
+	vs = append(vs, variant{"empty-parameter-last-segment-trailing-slash", base + "GET /zzt/{}/\n  200 any\n"})
 	vs = append(vs, variant{"repeated-parameter", base + "GET /zz/{q}/x/{q}\n  200 any\n"})
 	vs = append(vs, variant{"path-body-not-object", base + "GET /zy/{q}\n  Path\n    [1]\n  200 any\n"})
 	vs = append(vs, variant{"path-body-scalar", base + "GET /zy/{q}\n  Path\n    5\n  200 any\n"})
